@@ -58,6 +58,19 @@ class Reads:
             elif op == "gtxn":
                 self.abs.setdefault((ins[1], ins[2]), set()).update(self._near(k))
                 self.abs_read_pcs[k] = ins[1]
+            elif op in ("gtxna", "gtxnas"):
+                self.abs_read_pcs[k] = ins[1]          # array reads: only the position matters (group size)
+                self.abs.setdefault((ins[1], "__array__"), set())
+            elif op == "gtxnsa":
+                v = _int_of(prog, k - 1, self.intc) if k >= 1 else None
+                if v is not None:
+                    self.abs_read_pcs[k] = v
+                    self.abs.setdefault((v, "__array__"), set())
+            elif op == "gtxnsas":
+                v = _int_of(prog, k - 2, self.intc) if k >= 2 else None
+                if v is not None:
+                    self.abs_read_pcs[k] = v
+                    self.abs.setdefault((v, "__array__"), set())
             elif op == "gtxns":
                 tgt = self._gtxns_target(k)
                 if tgt is None:
@@ -202,7 +215,7 @@ def position_dims(reads, s, own):
         if f != "GroupIndex":
             add(own, f, c)
     for (i, f), c in reads.abs.items():
-        if f != "GroupIndex":
+        if f not in ("GroupIndex", "__array__"):
             add(i, f, c)
     for (k, f), c in reads.rel.items():
         if f != "GroupIndex":
